@@ -266,13 +266,17 @@ fn gates(rep: &mut Report, r: &mut Rng, n: u64) {
         // handler address through index, named field, or slice
         let path = r.below(3);
         let raw_before = bytes_of(&idt);
-        {
+        let set = catch(|| {
             let e: &mut Entry<HandlerFunc> = match path {
                 0 => &mut idt[v],
                 1 => &mut idt.slice_mut(v..=v)[0],
                 _ => &mut idt[v..][0],
             };
             unsafe { e.set_handler_addr(VirtAddr::new(a)) };
+        });
+        if set.is_err() {
+            rep.violation("entry-access|valid-vector-not-reachable-through-index-or-range", J::obj(vec![("vector", J::U(v as u64)), ("path", J::U(path))]));
+            continue;
         }
         let b = bytes_of(&idt);
         let g = decode(&b[16 * v as usize..16 * v as usize + 16]);
